@@ -964,6 +964,31 @@ fn gen_byz(seed: u64, prop: &str) -> Plan {
                 }
             }
         }
+        // same-height twins: the user asks, at the same moment, for a block / transaction of the
+        // side branch and for the main chain's block / transaction of the same number (they travel
+        // in one request); the deviating peer adds the side branch's to its proven answer
+        if mix(&[seed, 0x2004]) % 2 == 0 {
+            for j in 0..b.rng.range(1, 4) {
+                let at = mix(&[seed, 0x2005, j]) % until.max(2_000) + 1_000;
+                let span = back.min(n).max(1);
+                let number = ((tip + 1).saturating_sub(back) + mix(&[seed, 0x2006, j]) % span).max(1);
+                let headers = mix(&[seed, 0x2007, j]) % 2 == 0;
+                for branch in [0usize, 1] {
+                    let op = if headers {
+                        UserOp::FetchHeader(HashRef::Block { branch, number })
+                    } else {
+                        UserOp::FetchTransaction(HashRef::Tx { branch, number, k: 0 })
+                    };
+                    add(&mut b.plan, at, Action::User(op.clone()));
+                    add(&mut b.plan, at + 25_000, Action::User(op));
+                }
+            }
+            for ord in 0..6u64 {
+                for kind in [2u32, 3] {
+                    b.plan.peers[0].mutations.push(MutSpec { kind, ordinal: ord, op: 2004, seed: mix(&[seed, ord, kind as u64, 0x2008]) });
+                }
+            }
+        }
         for _ in 0..b.rng.range(1, 4) {
             let at = b.rng.range(1_000, until);
             // one of the side branch's own blocks below its tip (clamped to the branch at run time)
